@@ -1,3 +1,4 @@
+import re
 import logging
 from typing import Any
 
@@ -158,7 +159,10 @@ class EndpointVisitor(Visitor[IROperation, str]):
 
                             # Check if this is an async generator (returns AsyncIterator)
                             # If so, remove 'async' from the first line
-                            is_async_generator = "AsyncIterator" in sig_stripped
+                            # (the return annotation only: a model whose name contains the word is no stream)
+                            is_async_generator = (
+                                re.search(r"->\s*AsyncIterator\[", " ".join(signature_lines)) is not None
+                            )
 
                             # Write all lines except the last
                             for idx, sig in enumerate(signature_lines[:-1]):
